@@ -40,6 +40,6 @@ json.dump(meta,open('/verif/seeded/%s/meta.json'%id,'w'),indent=1)
 PY
   echo "RESULT $id caught_by_quick:$caught"
 else
-  tail -5 "$wt/.demo_without.log" "$wt/.demo_with.log" | cut -c1-300; tail -3 "$wt/.suite.log"
+  for f in "$wt/.demo_without.log" "$wt/.demo_with.log"; do tail -n 5 "$f" | cut -c1-300; done; grep -m5 -- "--- FAIL" "$wt/.suite.log"; tail -n 3 "$wt/.suite.log"
 fi
 cd /; git -C /repo worktree remove --force "$wt"; rm -rf "$wt"
